@@ -11,6 +11,7 @@ OBLIGATIONS = [
     "Pkgcore.C49.other_keys_take_final_value",
     "Pkgcore.C49.inherited_names_all",
     "Pkgcore.C49.defined_phases_exact",
+    "Pkgcore.C49.exported_phase_is_defined",
     "Pkgcore.C49.metadata_eq_spec",
     "Pkgcore.C49.eapi_table_is_pms",
 ]
@@ -28,13 +29,15 @@ ASSUMPTIONS = [
     "the order of the eclass set (_eclasses_) is not compared: it depends on pkgcore's per-set cache, only membership is a property",
 ]
 RULE = ("random repositories of 5-9 eclasses (a DAG with nested inherits up to depth 4, eclasses inherited several times) and ebuilds over "
-        "EAPIs 0-8 whose statements are assignments, appends (+= and \"${V} …\"), unsets, phase function definitions, EXPORT_FUNCTIONS and "
-        "inherit lines, placed before and after the inherit; values with irregular whitespace and empty values; "
+        "EAPIs 0-8 whose statements are assignments, appends (+= and \"${V} …\"), unsets, phase function definitions, EXPORT_FUNCTIONS "
+        "calls (one to three phases per call, anywhere in the eclass: the <eclass>_<phase> functions are defined before the call, after it, "
+        "or not at all) and inherit lines, placed before and after the inherit; values with irregular whitespace and empty values; "
         "non-trivial = the ebuild inherits at least one eclass and some accumulated key gets a value from an eclass")
 LEVEL_TEXT = ("Kernel-checked Lean 4 theorems about a hand translation of inherit()/__load_ebuild()/__dump_metadata_keys()/_update_metadata over "
               "arbitrary ebuild/eclass trees (any depth, any number of statements): every accumulated key is the ebuild's own value followed by "
               "the own value of every eclass in the order its sourcing completes; every other key is the last assignment in source order; "
-              "INHERITED lists exactly the sourced eclasses; DEFINED_PHASES is exactly the set of phase functions defined anywhere (or '-'). "
+              "INHERITED lists exactly the sourced eclasses; DEFINED_PHASES is exactly the set of phase functions defined anywhere (or '-'), "
+              "a phase exported with EXPORT_FUNCTIONS being defined wherever the call stands relative to the <eclass>_<phase> definition. "
               "The translation is tied to the code by regenerating the metadata of random repositories through the real ebuild daemon.")
 LEVEL_NOTE = ("Partial: bash itself (parsing, dynamic scoping, echo) is translated by hand and validated by the daemon runs, not verified.")
 
@@ -84,7 +87,11 @@ def gen_value(rng, var):
     return s
 
 
-def gen_script(rng, eclasses_available, is_eclass, want_inherit=False):
+def gen_script(rng, eclasses_available, me, want_inherit=False):
+    """`me` = the eclass name (None for an ebuild).  EXPORT_FUNCTIONS is a statement of its own; the
+    `<me>_<phase>` functions it refers to are separate `func` statements put before the call, after it
+    (eclasses traditionally export right after the EAPI check), or left out."""
+    is_eclass = me is not None
     stmts = []
     n = rng.randint(1, 8)
     for i in range(n):
@@ -100,16 +107,31 @@ def gen_script(rng, eclasses_available, is_eclass, want_inherit=False):
             stmts.append(["append", var, gen_value(rng, var), "${}"])
         elif k < 0.72:
             stmts.append(["unset", var, rng.choice(["unset", "unset -v"])])
-        elif k < 0.88 and eclasses_available:
+        elif k < 0.86 and eclasses_available:
             stmts.append(["inherit", rng.sample(eclasses_available, rng.randint(1, min(3, len(eclasses_available))))])
-        elif k < 0.95 or not is_eclass:
+        elif k < 0.92 or not is_eclass:
             stmts.append(["func", rng.choice(PHASES)])
         else:
-            stmts.append(["export", rng.choice(PHASES[:15])])
-    return stmts
+            stmts.append(["export", rng.sample(PHASES[:15], rng.choice([1, 1, 2, 3]))])
+    if not is_eclass:
+        return stmts
+    keyed = [(float(i), s) for i, s in enumerate(stmts)]
+    for i, s in enumerate(stmts):
+        if s[0] != "export":
+            continue
+        for ph in s[1]:
+            k = rng.random()
+            f = ["func", "%s_%s" % (me, ph)]
+            if k < 0.45:
+                keyed.append((rng.uniform(-1.0, i), f))          # defined, then exported
+            elif k < 0.9:
+                keyed.append((rng.uniform(i, float(n)), f))      # exported, then defined
+            # else: exported only (the stub is a defined function all the same)
+    keyed.sort(key=lambda t: t[0])
+    return [s for _, s in keyed]
 
 
-def render(stmts, me=None):
+def render(stmts):
     out = []
     for s in stmts:
         if s[0] == "set":
@@ -126,7 +148,7 @@ def render(stmts, me=None):
         elif s[0] == "func":
             out.append("%s() { :; }" % s[1])
         elif s[0] == "export":
-            out.append("%s_%s() { :; }\nEXPORT_FUNCTIONS %s" % (me, s[1], s[1]))
+            out.append("EXPORT_FUNCTIONS " + " ".join(s[1]))
     return "\n".join(out) + "\n"
 
 
@@ -155,13 +177,27 @@ def tree_size(t):
     return n
 
 
+def export_kinds(tree, me=None, out=None):
+    """how every EXPORT_FUNCTIONS argument in the (unfolded) tree stands to the definition of <eclass>_<phase> in the same file"""
+    out = set() if out is None else out
+    for i, s in enumerate(tree):
+        if s[0] == "inherit":
+            for n, b in s[1]:
+                export_kinds(b, n, out)
+        elif s[0] == "export":
+            for ph in s[1]:
+                f = ["func", "%s_%s" % (me, ph)]
+                out.add("export_after_definition" if f in tree[:i] else "export_before_definition" if f in tree[i:] else "export_without_definition")
+    return out
+
+
 CORPUS = [
     # the defect fixed in /repo: an eclass that unsets an accumulated variable
     ("5", [["set", "REQUIRED_USE", ")"], ["inherit", ["u0"]]], {"u0": [["unset", "REQUIRED_USE", "unset"]]}),
     ("7", [["set", "DEPEND", "cat/a"], ["inherit", ["u1"]], ["append", "DEPEND", "cat/z", "+="]],
      {"u1": [["unset", "DEPEND", "unset -v"], ["set", "DEPEND", "cat/b"]]}),
     ("8", [["set", "RESTRICT", "test"], ["set", "IUSE", "e0"], ["inherit", ["a", "b"]], ["append", "IUSE", "e1", "+="]],
-     {"a": [["set", "IUSE", "a1"], ["inherit", ["b"]], ["append", "IUSE", "a2", "${}"], ["set", "RESTRICT", "ra"], ["export", "src_compile"]],
+     {"a": [["set", "IUSE", "a1"], ["inherit", ["b"]], ["append", "IUSE", "a2", "${}"], ["set", "RESTRICT", "ra"], ["func", "a_src_compile"], ["export", ["src_compile"]]],
       "b": [["set", "IUSE", "b1"], ["set", "RDEPEND", "cat/b"], ["set", "DESCRIPTION", "from b"], ["func", "pkg_setup"], ["unset", "IUSE", "unset"]]}),
     ("7", [["set", "RESTRICT", "test"], ["inherit", ["a"]], ["set", "PROPERTIES", "live"]],
      {"a": [["set", "RESTRICT", "ra"], ["append", "PROPERTIES", "interactive", "+="]]}),
@@ -170,6 +206,19 @@ CORPUS = [
     ("4", [["set", "DEPEND", "cat/a"], ["inherit", ["a"]]], {"a": [["set", "DEPEND", "cat/d"]]}),
     ("6", [["func", "src_foo"], ["set", "KEYWORDS", "   "], ["set", "SLOT", "0"]], {}),
     ("8", [["inherit", ["a", "a"]], ["set", "IDEPEND", " "]], {"a": [["append", "IDEPEND", "cat/id", "+="], ["set", "BDEPEND", ""]]}),
+    # EXPORT_FUNCTIONS placed before / after the <eclass>_<phase> definitions, several phases per call, through a nested inherit,
+    # next to a phase the ebuild defines itself, and for a phase the EAPI does not have
+    ("7", [["inherit", ["early", "late"]], ["func", "pkg_setup"]],
+     {"early": [["export", ["src_compile", "pkg_postinst"]], ["set", "IUSE", "early"], ["func", "early_src_compile"], ["func", "early_pkg_postinst"]],
+      "late": [["set", "IUSE", "late"], ["func", "late_src_install"], ["export", ["src_install"]]]}),
+    ("5", [["inherit", ["outer"]]],
+     {"outer": [["inherit", ["early"]], ["export", ["src_test"]], ["func", "outer_src_test"]],
+      "early": [["export", ["src_compile", "pkg_postinst"]], ["func", "early_src_compile"], ["func", "early_pkg_postinst"]]}),
+    ("1", [["set", "DEPEND", "cat/a"], ["inherit", ["x"]], ["func", "src_compile"]],
+     {"x": [["export", ["src_prepare", "src_unpack", "src_compile"]], ["func", "x_src_unpack"], ["func", "x_src_prepare"], ["func", "x_src_compile"]]}),
+    ("8", [["inherit", ["x", "y"]]],
+     {"x": [["export", ["pkg_config"]], ["inherit", ["y"]], ["func", "x_pkg_config"]],
+      "y": [["func", "y_pkg_info"], ["export", ["pkg_info", "pkg_nofetch"]], ["func", "y_pkg_nofetch"]]}),
 ]
 
 
@@ -199,10 +248,10 @@ def run(ctx):
             ecls = {}
             for i, n in enumerate(names):
                 later = names[i + 1:]
-                ecls[n] = gen_script(rng, later[:4], True, want_inherit=rng.random() < 0.5)
+                ecls[n] = gen_script(rng, later[:4], n, want_inherit=rng.random() < 0.5)
             ebuilds = []
             for _ in range(per):
-                ebuilds.append((rng.choice(EAPIS), gen_script(rng, names if rng.random() < 0.9 else [], False, want_inherit=rng.random() < 0.7)))
+                ebuilds.append((rng.choice(EAPIS), gen_script(rng, names if rng.random() < 0.9 else [], None, want_inherit=rng.random() < 0.7)))
             repos.append((ecls, ebuilds))
         cases = []
         for ri, (ecls, ebuilds) in enumerate(repos):
@@ -210,7 +259,7 @@ def run(ctx):
             build_repo(path)
             for n, body in ecls.items():
                 with open(os.path.join(path, "eclass", n + ".eclass"), "w") as f:
-                    f.write(render(body, n))
+                    f.write(render(body))
             for j, (eapi, eb) in enumerate(ebuilds):
                 d = os.path.join(path, "cat", "p%d" % j)
                 os.makedirs(d)
@@ -222,7 +271,7 @@ def run(ctx):
                 if tree_size(tree) > 400:
                     ctx.count("skipped_huge_tree")
                     continue
-                case = {"eapi": eapi, "ebuild": render(eb), "eclasses": {n: render(b, n) for n, b in ecls.items()
+                case = {"eapi": eapi, "ebuild": render(eb), "eclasses": {n: render(b) for n, b in ecls.items()
                                                                          if n in json.dumps(tree)}}
                 try:
                     pkg = repo[("cat", "p%d" % j, "1")]
@@ -243,6 +292,8 @@ def run(ctx):
             ctx.count("eapi_" + eapi)
             ctx.count("inherit_lines_%s" % (n_inh if n_inh < 4 else "4+"))
             ctx.count("tree_size_%s" % ("<10" if tree_size(tree) < 10 else "<40" if tree_size(tree) < 40 else ">=40"))
+            for kind in sorted(export_kinds(tree)) or ["no_export"]:
+                ctx.count(kind)
             if rep in ("bad-op", "err") or not isinstance(rep, dict):
                 ctx.case(case, False)
                 ctx.mismatch(case, f"driver answered {rep}")
